@@ -249,6 +249,18 @@ def build_goto(job, root, wdir, extra_defs=()):
         if rc:
             raise Undecided("value-set function pointer removal failed: " + txt3[-800:])
         a = a3
+    if job.get("restrict_fp"):
+        # a call through a pointer that lives in a heap object: name its possible targets (the
+        # instrumentation ASSERTS that the pointer is one of them, so a wrong list is a failed
+        # obligation, not an unsound restriction)
+        a4 = os.path.join(wdir, "a_rfp.gb")
+        rcmd = ["goto-instrument"]
+        for r in job["restrict_fp"]:
+            rcmd += ["--restrict-function-pointer", r]
+        rc, txt4, _ = run(rcmd + [a, a4], wdir, 600, mem_gb=job.get("mem", 12))
+        if rc:
+            raise Undecided("restrict-function-pointer failed: " + txt4[-800:])
+        a = a4
     enforce, replace = job.get("enforce", []), job.get("replace", [])
     if not (enforce or replace or job.get("loops")):
         return a, " ".join(cmd[:1] + ["…"])
